@@ -243,7 +243,9 @@ class C11(Prop):
         "weibull_objective_is_neg_loglik", "weibull_loglik_derivatives", "weibull_fit_optimality_certificate", "weibull_stationary_is_global_maximiser_partial", "weibull_stationary_point_is_unique_maximiser_partial",
         "weibull_sxp_fit_parameters_positive", "gamma_rate_is_maximiser", "truncated_gumbel_gradient_is_derivative", "exp_binned_fit_is_maximiser", "exp_binned_loglik_closed_form",
         "set_expect_fills_all_bins", "expected_tail_emin_in_range", "expected_counts_account_for_the_mass", "goodness_never_faults", "goodness_accounts_for_its_counts", "goodness_range_is_the_raw_data_above_its_threshold",
-        "plot_accounts_for_data", "plot_survival_accounts_for_data", "plot_qq_in_bounds", "declare_rounding_keeps_the_data")]
+        "plot_accounts_for_data", "plot_survival_accounts_for_data", "plot_qq_in_bounds", "declare_rounding_keeps_the_data",
+        # round 6
+        "sxp_objective_is_neg_loglik", "sxp_rate_is_maximiser", "sxp_rate_closed_form", "weibull_binned_objective_is_neg_loglik", "weibull_cdf_is_distribution_function")]
     claimed = True
     technique = ("Lean 4 proof over an executable line-by-line model (numeric class: Float for the bit-exact differential run, Q/R for the theorems) "
                  "+ bit-exact correspondence with the ASan/UBSan-built C code + exact-rational / log-likelihood property monitors")
@@ -273,9 +275,8 @@ class C11(Prop):
                   "quantile grids of every family. Gamma stationarity in tau (digamma; the code uses its own series), stretched exponential and GEV likelihood shape: not proved. "
                   "Not modelled (monitors only): GEV fits (log1p/expm1 are not available to the executable model), stretched-exponential binned fit (esl_sxp_cdf ignores the status of "
                   "esl_stats_IncompleteGamma and may return an unset value for extreme parameters), esl_histogram_Write/Print and the number formatting of the plots, esl_gumbel/esl_exp tail fits. "
-                  "A freshly allocated expect[] stays uninitialised when SetExpectedTail refuses base_val (generator issues a refused call only after expected counts exist). "
                   "Log-normal sigma uses the n-1 variance, not the ML n; libm and libc qsort are trusted. "
-                  "Genuine defects found while building this check and repaired in /repo: b44f0f8 7d6f911 fd84f7f bad2f4e 2487976 935fded 9b72a6e 6f20587 6da6a89 8354c02; their witnesses are corpus regression cases.")
+                  "Genuine defects found while building this check and repaired in /repo: b44f0f8 7d6f911 fd84f7f bad2f4e 2487976 935fded 9b72a6e 6f20587 6da6a89 8354c02 6815f41; their witnesses are corpus regression cases.")
     diverge_is_violation = True
     fault_is_output = True      # faults are classified by monitor() (a hang inside a CG-based fit carries the known key)
     trusted_base = ["hand model of esl_histogram.c and of the closed-form/Newton fits tied by a bit-exact differential run (h_stats.c, ASan+UBSan build of the working tree)",
@@ -502,6 +503,13 @@ class C11(Prop):
         c.append({"name": "regress-plots-empty-histogram", "sticky": 1, "ops": [
             "hnew full=0 bmin=%s bmax=%s w=%s" % (d(0.0), d(10.0), d(1.0)), "hplotsurv", "hplot", "hgood nfitted=0", "hexpdump",
             "hexpect " + u, "hexpdump", "hplotsurv", "hplot", "hplotqq", "hgood nfitted=0", "hexptail %s base=%s pmass=%s" % (u, d(3.0), d(0.5)), "hexpdump", "hplotsurv", "hplot", "hgood nfitted=1"]})
+        # regression 6815f41: SetExpectedTail refusing base_val (NaN, inf, beyond int) BEFORE any expected counts exist must leave expect NULL
+        # (it used to stay allocated and unwritten; Plot/PlotSurvival/Goodness then read it)
+        for k, bad in enumerate((float("inf"), float("nan"), -float("inf"), 1e300, -3e9)):
+            c.append({"name": "regress-expectedtail-refused-first-%d" % k, "sticky": 1, "ops": [
+                "hnew full=0 bmin=%s bmax=%s w=%s" % (d(0.0), d(10.0), d(1.0)), "hadd xs=" + ",".join(d(0.5 + i) for i in range(9)),
+                "hexptail cdf=exp c=%s,%s base=%s pmass=%s" % (d(0.0), d(1.0), d(bad), d(0.5)), "hexpdump", "hgood nfitted=0", "hplot", "hplotsurv", "hplotqq",
+                "hexptail cdf=exp c=%s,%s base=%s pmass=%s" % (d(0.0), d(1.0), d(2.0), d(0.5)), "hexpdump", "hgood nfitted=0", "hplot"]})
         g = grid("exp", 400, 0.0, 0.5, 1.0)
         c.append({"name": "goodness-exp-grid", "sticky": 1, "ops": [
             "hnew full=1 bmin=%s bmax=%s w=%s" % (d(0.0), d(20.0), d(0.25)), "hadd xs=" + ",".join(d(x) for x in g),
@@ -650,6 +658,9 @@ class C11(Prop):
                                    bmin - 1e6 * w, bmax + 1e6 * w,                       # far below / above every allocated bin (7d2bcba)
                                    bmin + (lo_reach * 5 - 40) * w, bmin + (hi_reach * 5 + 40) * w])
             if rng.random() < 0.3: ops.append("hexpdump")
+            if rng.random() < 0.15:       # a refused base value BEFORE any expected counts exist: expect must stay NULL (6815f41)
+                ops.append("hexptail %s base=%s pmass=%s" % (some_cdf(), d(rng.choice([float("nan"), float("inf"), -float("inf"), 1e300, -3e9 * w + bmin])), d(0.5)))
+                ops += ["hexpdump", "hgood nfitted=0", "hplot", "hplotsurv"]
             for _ in range(rng.choice([1, 1, 2])):
                 if rng.random() < 0.5: ops.append("hexpect " + some_cdf())
                 else: ops.append("hexptail %s base=%s pmass=%s" % (some_cdf(), d(some_base()), d(rng.choice([1.0, 0.5, 0.1, 0.01, rng.random()]))))
